@@ -39,6 +39,10 @@ class HarnessError(Exception):
     """The check itself is wrong or cannot run (exit code 2, never a violation)."""
 
 
+class _BudgetStop(BaseException):
+    """Raised inside a Hypothesis test body to end generation when the wall budget is used up."""
+
+
 # --------------------------------------------------------------------------
 # JSON helpers (floats are round-trip exact through repr; NaN/inf allowed)
 
@@ -244,12 +248,10 @@ def shard_worker(args):
 
             def body(case):
                 _sub_name, _state, _t0, _budget = sub_name, state, t0, budget
-                if _state['stopped']:
-                    return
-                if time.time() - _t0 > _budget:
+                if _state['stopped'] or time.time() - _t0 > _budget:
                     _state['stopped'] = True
                     out['budget_hit'] = True
-                    return
+                    raise _BudgetStop()
                 ctx = run_case(mod, _sub_name, case, in_hypothesis=True)
                 _state['n'] += 1
                 out['evaluations'] += 1
@@ -279,8 +281,11 @@ def shard_worker(args):
             test = hypothesis.seed(_shard_seed(seed, shard, sub_name))(test)
             test = settings(max_examples=n, database=None, deadline=None, derandomize=False,
                             report_multiple_bugs=False, suppress_health_check=list(HealthCheck),
-                            phases=[Phase.generate, Phase.target])(test)
-            test()
+                            phases=[Phase.generate] if os.environ.get("VERIF_TARGET") != "1" else [Phase.generate, Phase.target])(test)
+            try:
+                test()
+            except _BudgetStop:
+                pass
             out['per_sub'][sub_name] = state['n']
     except HarnessError as e:
         out['harness_error'] = str(e)
